@@ -326,7 +326,11 @@ class ProcessMessage:
         }
         no_inline = set(self.keep.values()) | ({self.digest_len} if self.digest_len else set())
         self.eng = Engine(fx, no_inline=no_inline)
-        self.rows = self.eng.table(self.fn["id"], arg_terms={1: ("ptr", ("S", "self"), ()), 2: ("obj", ("S", "msg"))})
+        all_rows = self.eng.table(self.fn["id"], arg_terms={1: ("ptr", ("S", "self"), ()), 2: ("obj", ("S", "msg"))})
+        # process_message has no loop of its own on the pinned tree; a refactoring may add one (e.g. building the exclusion set
+        # with a for loop): its body rows are kept apart, the arm rules look at the paths that leave the function
+        self.loop_rows = [r for r in all_rows if r.exit == "backedge"]
+        self.rows = [r for r in all_rows if r.exit != "backedge"]
         self.by_variant = {}
         for r in self.rows:
             v = None
